@@ -944,6 +944,13 @@ func (cc *Conn) handleSpecialMessages(r *pool.Message) bool {
 		return true
 	}
 
+	// A Reset message that is not Empty is rejected by silently ignoring it (RFC 7252 4.2): it neither ends
+	// an exchange nor is it anybody's response.
+	if r.Type() == message.Reset && r.Code() != codes.Empty {
+		cc.ReleaseMessage(r)
+		return true
+	}
+
 	// if waits for concrete message handler: only an acknowledgement or a reset carries the message ID
 	// of one of our own messages; requests and separate responses are numbered by the peer, and a
 	// coinciding ID must not take the handler away from the acknowledgement it is waiting for.
